@@ -366,7 +366,10 @@ let candidates (h : header) (vcount : int ref) (ecount : int ref) : (int * move)
     if h.opname = "flatten" && i = 0 then begin
       for k = 0 to 3 do add 8 (MIn (IDn (O, DD (VN (nat_of_int k))))) done
     end else
-      add 30 (MIn (IDn (inn, DD (VN (nat_of_int (match rand 4 with 0 -> !vcount mod 10 | _ -> rand 10))))));
+      add 30 (MIn (IDn (inn, DD (VN (nat_of_int (match rand 12 with
+                                                  | 0 | 1 | 2 -> !vcount mod 10
+                                                  | 3 -> 10 + rand 90      (* now and then a larger value *)
+                                                  | _ -> rand 10))))));
     add 8 (MIn (IDn (inn, DT)));
     add 4 (MIn (IDn (inn, DE (nat_of_int (100 + !ecount)))))
   done;
@@ -461,17 +464,17 @@ let gen_header (opname : string) : string =
     | "map" -> Printf.sprintf "op=map a=%d b=%d" (1 + rand 3) (rand 3)
     | "filter" -> let m = 2 + rand 2 in Printf.sprintf "op=filter m=%d r=%d" m (rand m)
     | "scan" -> Printf.sprintf "op=scan k=%d seed=%d" (rand 3) (rand 4)
-    | "take" -> Printf.sprintf "op=take n=%d" (1 + rand 3)
-    | "skip" -> Printf.sprintf "op=skip n=%d" (rand 4)
+    | "take" -> Printf.sprintf "op=take n=%d" (if rand 8 = 0 then 4 + rand 5 else 1 + rand 3)
+    | "skip" -> Printf.sprintf "op=skip n=%d" (if rand 8 = 0 then 4 + rand 5 else rand 4)
     | "from_iter" ->
-        let l = rand 5 in
+        let l = if rand 8 = 0 then 5 + rand 6 else rand 5 in
         let xs = List.init l (fun _ -> string_of_int (rand 10)) in
         Printf.sprintf "op=from_iter xs=%s inf=%s"
           (if l = 0 then "-" else String.concat "," xs)
           (if rand 4 = 0 then string_of_int (rand 10) else "-")
     | "for_each" -> "op=for_each"
-    | "merge" -> Printf.sprintf "op=merge n=%d" (1 + rand 3)
-    | "concat" -> Printf.sprintf "op=concat n=%d" (1 + rand 3)
+    | "merge" -> Printf.sprintf "op=merge n=%d" (if rand 7 = 0 then 4 + rand 3 else 1 + rand 3)
+    | "concat" -> Printf.sprintf "op=concat n=%d" (if rand 7 = 0 then 4 + rand 3 else 1 + rand 3)
     | "combine" -> Printf.sprintf "op=combine n=%d" (1 + rand 3)
     | "flatten" -> "op=flatten"
     | "share" -> Printf.sprintf "op=share sinks=%d" (1 + rand 3)
@@ -494,7 +497,7 @@ let cmd_gen seed count ops =
     let opname = ops.(rand (Array.length ops)) in
     let hs = gen_header opname in
     let h = parse_header hs in
-    let maxlen = 4 + rand 28 in
+    let maxlen = if rand 10 = 0 then 30 + rand 60 else 4 + rand 28 in
     Printf.printf "%s | %s\n" hs (gen_script h maxlen)
   done
 
